@@ -540,6 +540,7 @@ def rule_Q4(ctx) -> None:
         ctx.proved("Q4", "duration-parser:negative-durations", mod.loc(fdi))
     rule_Q4d(ctx, sites)
     rule_Q4c(ctx)
+    rule_Q4e(ctx)
 
 
 Q4D_INPUTS = ["0s", "1s", "-1s", "1.500s", "-1.500s", "-0.500s", "0.250s", "-3.000001s", "3.000001s", "+2.5s", "-0s", "-10.010s", "7200.000s", "-0.000001s", "12.345678s"]
@@ -603,6 +604,65 @@ def rule_Q4d(ctx, sites) -> None:
             ctx.proved("Q4", name, mod.loc(fn), f"{len(Q4D_INPUTS)} inputs over {len(paths)} paths")
     if not done:
         ctx.notes.append("Q4d: the Duration text parser is not a one-argument function; distinguished inputs not evaluated (structural Q4 clauses apply)")
+
+
+Q4E_MICROS = [0, 1, -1, 1000, -1000, 500000, -500000, 1000000, -1000000, 1500000, -1500000, 250000, -3000001, 3000001, 12345678, -12345678, 7200000000, -86400000000,
+              -86400500000, 90061001000, -999999, 999999, 10**6 * 10**7 + 1, -(10**6 * 10**7) - 1]
+
+
+def rule_Q4e(ctx) -> None:
+    """the emitter of the Duration JSON text, evaluated at distinguished timedeltas (both signs, whole seconds, fractions with
+    and without a whole part, spans whose normalised days / seconds / microseconds fields have mixed signs): the path each value
+    takes is selected with the analyser's evaluator and the text must be decimal seconds that denote exactly the span"""
+    import datetime as _dt
+    import re as _re
+    from decimal import Decimal
+    from .. import concrete
+    mod = ctx.repo.mod(M_INIT)
+    fn = mod.func("_Duration.delta_to_json")
+    params = [a.arg for a in fn.args.args if a.arg not in ("self", "cls")]
+    name = "delta_to_json:distinguished-durations"
+    if len(params) != 1:
+        ctx.inconclusive("Q4", name, f"parameters {params}", mod.loc(fn))
+        return
+    paths = Interp(mod, fork_ifexp=True).run(fn)
+    ctx.count(len(paths))
+    bad = unknown = None
+    for us in Q4E_MICROS:
+        td = _dt.timedelta(microseconds=us)
+        env = {params[0]: td}
+        sel, why = [], None
+        for p in paths:
+            try:
+                if all(bool(concrete.ev(k, env)) == bool(v) for k, v in p.valuation.items() if k[0] != "raises"):
+                    sel.append(p)
+            except concrete.Unknown as e:
+                why = str(e)
+                break
+        if why is not None or len(sel) != 1:
+            unknown = unknown or f"{td!r}: {why or str(len(sel)) + ' paths selected'}"
+            continue
+        p = sel[0]
+        if p.outcome != "return" or p.value is None:
+            bad = bad or (td, f"<{p.outcome}>")
+            continue
+        try:
+            got = concrete.ev(p.value, env)
+        except concrete.Unknown as e:
+            unknown = unknown or f"{td!r}: text not evaluable ({e})"
+            continue
+        ok = isinstance(got, str) and _re.fullmatch(r"-?\d+(\.\d{1,9})?s", got) is not None and Decimal(got[:-1]) * 10 ** 6 == us
+        if not ok:
+            bad = bad or (td, got)
+    if bad:
+        td, got = bad
+        ctx.refuted("Q4", name, f"{td.total_seconds()}s->{got}", mod.loc(fn), f"the span {td!r} ({Decimal(int(td / _dt.timedelta(microseconds=1))) / 10 ** 6} s) is written as {got!r}: the normalised fields of a negative "
+                    "timedelta count forward from the floored day / second (days=-1, seconds=86398, microseconds=500000 is -1.5 s), they are not the digits of its magnitude",
+                    f"M(d=timedelta(microseconds={int(td / _dt.timedelta(microseconds=1))})).to_json()")
+    elif unknown:
+        ctx.inconclusive("Q4", name, unknown[:300], mod.loc(fn))
+    else:
+        ctx.proved("Q4", name, mod.loc(fn), f"{len(Q4E_MICROS)} spans over {len(paths)} paths")
 
 
 def _duration_text_sites(mod) -> List[ast.AST]:
